@@ -2085,12 +2085,14 @@ impl<'a> Socket<'a> {
                     // Clear the remote endpoint, or we'll send an RST there.
                     self.set_state(State::Closed);
                     self.tuple = None;
-                } else if ack_len == 0 {
+                } else if ack_len == 0 && self.tx_buffer.is_empty() {
                     // Duplicate ACK; our FIN has not been acknowledged.
                     // Per RFC 9293 (3.10.7.4), send a challenge ACK.
                     return self.challenge_ack_reply(cx, ip_repr, repr);
                 }
-                // Partial ACK: fall through to advance SND.UNA normally.
+                // Partial ACK: fall through to advance SND.UNA normally. So does a duplicate
+                // ACK while data is still queued: it may carry the window update that data
+                // is waiting for.
             }
 
             _ => {
